@@ -87,11 +87,11 @@ PROPS['C17'] = dict(
     mc=[xixi_mc('MC_Stat', ['AccountingExact', 'FileSizeRespected', 'MapSemantics'],
                 quick=dict(MaxOps=4), thorough=dict(MaxOps=5))],
     traces=[dict(profile='stat', spec='EngineTrace',
-                 enforce=['stat', 'statkeys', 'files', 'open', 'mergeok'],
+                 enforce=['stat', 'statkeys', 'files', 'open', 'mergeok', 'statsnap'],
                  quick_seeds=1, thorough_seeds=2),
             # the counters of a database recovered from a process death inside a batch (unsealed batch records in the log);
             # the mapping of an image is not known to the trace specification, so only the accounting checks are enforced
-            dict(profile='statcrash', spec='EngineTrace', enforce=['stat', 'files', 'open', 'mergeok'],
+            dict(profile='statcrash', spec='EngineTrace', enforce=['stat', 'files', 'open', 'mergeok', 'statsnap'],
                  quick_seeds=1, thorough_seeds=2)],
     assumptions=E_ASSUME + ['bytes occupied by a live record = the size the index reports for it (C11 decides that this size is right)',
                             'a file may exceed the largest DataFileSize used so far in the run only with one record (+ sealing record)'],
